@@ -1,1 +1,73 @@
-pub fn main_attrs() { eprintln!("not built yet"); std::process::exit(2); }
+//! `gqlv attrs`: the real attribute functions of graphql_query_derive (source file included
+//! with #[path]) applied to rendered `#[graphql(...)]` text (C18).
+
+use crate::{emit, quiet_panics, read_jobs, take_panic};
+use serde_json::{json, Value};
+
+#[allow(dead_code)]
+#[path = "/repo/graphql_query_derive/src/attributes.rs"]
+mod attributes;
+
+fn res_str(r: Result<String, syn::Error>) -> Value {
+    match r {
+        Ok(s) => json!({"ok": s}),
+        Err(e) => json!({"err": e.to_string()}),
+    }
+}
+
+fn one(source: &str) -> Value {
+    let ast: syn::DeriveInput = match syn::parse_str(source) {
+        Ok(a) => a,
+        Err(e) => return json!({"parse_error": e.to_string()}),
+    };
+    let mut kv = serde_json::Map::new();
+    for k in [
+        "query_path",
+        "schema_path",
+        "response_derives",
+        "variables_derives",
+        "custom_scalars_module",
+        "deprecated",
+        "normalization",
+        "fragments_other_variant",
+    ] {
+        kv.insert(k.to_string(), res_str(attributes::extract_attr(&ast, k)));
+    }
+    let list = match attributes::extract_attr_list(&ast, "extern_enums") {
+        Ok(v) => json!({"ok": v}),
+        Err(e) => json!({"err": e.to_string()}),
+    };
+    let dep = match attributes::extract_deprecation_strategy(&ast) {
+        Ok(d) => json!({"ok": format!("{:?}", d).to_lowercase()}),
+        Err(e) => json!({"err": e.to_string()}),
+    };
+    let norm = match attributes::extract_normalization(&ast) {
+        Ok(d) => json!({"ok": format!("{:?}", d).to_lowercase()}),
+        Err(e) => json!({"err": e.to_string()}),
+    };
+    json!({
+        "kv": kv,
+        "extern_enums": list,
+        "deprecation": dep,
+        "normalization": norm,
+        "fragments_other_variant": attributes::extract_fragments_other_variant(&ast),
+        "skip_serializing_none": attributes::extract_skip_serializing_none(&ast),
+        "ident": ast.ident.to_string(),
+        "vis": quote::ToTokens::to_token_stream(&ast.vis).to_string(),
+    })
+}
+
+pub fn main_attrs() {
+    quiet_panics();
+    for job in read_jobs() {
+        let id = job.get("id").cloned().unwrap_or(Value::Null);
+        let source = job.get("source").and_then(|v| v.as_str()).unwrap_or("").to_string();
+        match std::panic::catch_unwind(|| one(&source)) {
+            Ok(mut v) => {
+                v["id"] = id;
+                emit(&v)
+            }
+            Err(_) => emit(&json!({"id": id, "panic": take_panic()})),
+        }
+    }
+}
